@@ -222,6 +222,46 @@ func readComponentArrows(d string) ([][2]string, string) {
 	return out, ""
 }
 
+var (
+	reEPATop   = regexp.MustCompile(`^state "([^"]*)" as (X_\d+)`)
+	reEPAState = regexp.MustCompile(`^\s+state "([^"]*)" as (_\d+)`)
+	reEPAEdge  = regexp.MustCompile(`^\s*(_\d+) -[^>]*> (_\d+)`)
+)
+
+// readEPAArrows reads an endpoint-analysis (state) diagram: the pairs (application, application) of arrows that
+// lead from a state inside one application's box to a state inside another's.
+func readEPAArrows(d string) ([][2]string, string) {
+	owner := map[string]string{}
+	cur := ""
+	seen := map[[2]string]bool{}
+	var out [][2]string
+	for _, l := range strings.Split(d, "\n") {
+		switch {
+		case reEPATop.MatchString(l):
+			cur = reEPATop.FindStringSubmatch(l)[1]
+		case strings.TrimSpace(l) == "}":
+			cur = ""
+		case reEPAState.MatchString(l):
+			if cur == "" {
+				return nil, "state declared outside an application box: " + l
+			}
+			owner[reEPAState.FindStringSubmatch(l)[2]] = cur
+		case reEPAEdge.MatchString(l):
+			m := reEPAEdge.FindStringSubmatch(l)
+			a, okA := owner[m[1]]
+			b, okB := owner[m[2]]
+			if !okA || !okB {
+				return nil, "arrow between undeclared states: " + l
+			}
+			if a != b && !seen[[2]string{a, b}] {
+				seen[[2]string{a, b}] = true
+				out = append(out, [2]string{a, b})
+			}
+		}
+	}
+	return out, ""
+}
+
 func strAttrArr(vals []string) *sysl.Attribute {
 	var elts []*sysl.Attribute
 	for _, v := range vals {
@@ -347,6 +387,33 @@ func (c14) Run(c core.Case) core.Outcome {
 						depPairs[[2]string{a, t}] = true
 					}
 					if view == "epa" {
+						// endpoint-analysis view: arrows between states owned by different applications
+						if pass != 0 || cs.Human >= 0 || cs.AllHidden {
+							continue
+						}
+						epaArrows, gap := readEPAArrows(out["view"])
+						if gap != "" {
+							o.Gap = desc() + ": " + gap
+							return o
+						}
+						for _, e := range calls {
+							listed := false
+							for _, s := range seedNames {
+								listed = listed || s == e.Src
+							}
+							if !listed || e.Src == e.Tgt || excluded[e.Tgt] || e.TgtEp == "h" {
+								continue
+							}
+							found := false
+							for _, a := range epaArrows {
+								if labelMatches(a[0], e.Src) && labelMatches(a[1], e.Tgt) {
+									found = true
+								}
+							}
+							if !found {
+								return fail("missing-arrow|epa", fmt.Sprintf("call %s -> %s (%s) from a listed application has no arrow between the two applications' states in the endpoint-analysis view; arrows %v\n%s", e.Src, e.Tgt, e.TgtEp, epaArrows, out["view"]))
+							}
+						}
 						continue
 					}
 					text := out["view"]
